@@ -30,9 +30,13 @@ NUMERALS = {"I": 1, "II": 2, "III": 3, "IV": 4}
 
 
 def sort_names(names, ranks=None, smart=False):
+    from tola.assembly.fragment import Fragment
+
     asm = Assembly("a")
     for i, n in enumerate(names):
-        asm.add_scaffold(Scaffold(n, rank=(ranks[i] if ranks else 0)))
+        # scaffolds carry sequence of varying length (bare scaffolds all have length 0)
+        rows = [Fragment("c", 1, 1 + (len(n) * 7919 + i * 104729) % 5000, 1)] if (len(n) + i) % 3 else []
+        asm.add_scaffold(Scaffold(n, rows, rank=(ranks[i] if ranks else 0)))
     if smart:
         must(asm.smart_sort_scaffolds, what=f"smart_sort_scaffolds({names})")
         return [(s.rank, s.name) for s in asm.scaffolds]
@@ -93,6 +97,16 @@ def body_numeric(case, rec):
     elif kind == "numeral":
         inv = {v: k for k, v in NUMERALS.items()}
         lo, hi = f"{p}{inv[a]}{s}", f"{p}{inv[b]}{s}"
+    elif kind == "prefix_pair":
+        # a name and the same name with a number appended (X / X1 / X2): the shorter one first
+        want = [f"{p}X", f"{p}X1", f"{p}X2", f"{p}X10"]
+        for order in (want, want[::-1], [want[2], want[0], want[3], want[1]]):
+            for smart in (False, True):
+                got = sort_names(order, [2] * 4 if smart else None, smart=smart)
+                got = [n for _r, n in got] if smart else got
+                if got != want:
+                    raise Violation(f"{'smart sort' if smart else 'sort by name'}: {got}, expected {want}")
+        return
     elif kind == "unloc":
         base = f"{p}{a}"
         want = [base, f"{base}_unloc_1", f"{base}_unloc_2", f"{base}_unloc_10", f"{p}{a + 1}"]
@@ -192,7 +206,7 @@ def set_cases(draw):
 
 @st.composite
 def numeric_cases(draw):
-    kind = draw(st.sampled_from(["decimal", "decimal", "numeral", "unloc", "rank"]))
+    kind = draw(st.sampled_from(["decimal", "decimal", "numeral", "unloc", "rank", "prefix_pair"]))
     p = draw(st.sampled_from(["SUPER_", "CHR", "chr_", "LG", "scaffold_", "a.b-", "x", "Hap1_s", ""]))
     s = draw(st.sampled_from(["", "_unloc_1", "A", "B", "_x", ".q", "-r"]))
     case = {"kind": kind, "p": p, "s": s, "a": 0, "b": 0}
